@@ -653,9 +653,81 @@ func genRead(p *pkg, out string) {
 	}
 	defs := "(* generated by tools/gosync (wire.go) - do not edit *)\nFrom MQ Require Import Model.ReadIR.\nFrom Coq Require Import List NArith String.\nImport ListNotations.\nLocal Open Scope string_scope.\n\n" +
 		"(* vbint.ReadFrom, statement by statement *)\nDefinition g_vb_read_prog : list rs :=\n  " + body + ".\n"
+	// the allocation switch of fixedHeader.ReadRemaining
+	mask, table, def := "0%N", "[(0%N, \"unknown\", false)]", "(\"unknown\", false)"
+	if fd := p.funcs["fixedHeader.ReadRemaining"]; fd != nil && fd.Body != nil {
+		for _, st := range fd.Body.List {
+			sw, ok := st.(*ast.SwitchStmt)
+			if !ok || sw.Init != nil || sw.Tag == nil {
+				continue
+			}
+			if b, ok := sw.Tag.(*ast.BinaryExpr); ok && b.Op == token.AND && squash(p.src(b.X)) == "byte(f.fixed)" {
+				if m, ok := constVal(b.Y); ok {
+					mask = m + "%N"
+				}
+			}
+			type row struct {
+				key   uint64
+				entry string
+			}
+			var rows []row
+			good := true
+			for _, cc := range sw.Body.List {
+				cl := cc.(*ast.CaseClause)
+				name, keeps, okBody := "", false, false
+				if len(cl.Body) == 1 {
+					src := squash(p.src(cl.Body[0]))
+					if strings.HasPrefix(src, "p=&") {
+						rest := strings.TrimPrefix(src, "p=&")
+						if i := strings.IndexByte(rest, '{'); i > 0 {
+							name = rest[:i]
+							switch rest[i:] {
+							case "{fixed:f.fixed}":
+								keeps, okBody = true, true
+							case "{}":
+								okBody = true
+							}
+						}
+					}
+				}
+				if !okBody {
+					good = false
+					continue
+				}
+				if len(cl.List) == 0 {
+					def = fmt.Sprintf("(%q, %v)", name, keeps)
+					continue
+				}
+				for _, e := range cl.List {
+					v, ok := constVal(e)
+					var k uint64
+					if !ok {
+						good = false
+						continue
+					}
+					fmt.Sscanf(v, "%d", &k)
+					rows = append(rows, row{k, fmt.Sprintf("(%d%%N, %q, %v)", k, name, keeps)})
+				}
+			}
+			if good {
+				sort.Slice(rows, func(i, j int) bool { return rows[i].key < rows[j].key })
+				var es []string
+				for _, r := range rows {
+					es = append(es, r.entry)
+				}
+				table = "[" + strings.Join(es, "; ") + "]"
+			}
+			break
+		}
+	}
+	defs += "\n(* the allocation switch of fixedHeader.ReadRemaining: (case value, struct, given the first byte) *)\n" +
+		"Definition g_dispatch_mask : N := " + mask + ".\nDefinition g_dispatch_table : list (N * string * bool) :=\n  " + table + ".\n" +
+		"Definition g_dispatch_default : string * bool := " + def + ".\n"
 	os.WriteFile(filepath.Join(out, "GenRead.v"), []byte(defs), 0o644)
 	lems := "(* generated by tools/gosync (wire.go) - do not edit *)\nFrom MQ Require Import Model.ReadIR gen.GenRead.\nFrom Coq Require Import List String.\n\n" +
 		"(* vbint.ReadFrom is the statement list the model runs (Proofs/ReadIRP.v: running it is Stream.vb_stream) *)\n" +
-		"Lemma sync_vb_read_prog : g_vb_read_prog = vb_read_prog.\nProof. vm_compute. reflexivity. Qed.\n"
+		"Lemma sync_vb_read_prog : g_vb_read_prog = vb_read_prog.\nProof. vm_compute. reflexivity. Qed.\n\n" +
+		"(* the allocation switch of ReadRemaining is the table the model dispatches by\n   (Proofs/ReadIRP.v: dispatching by it is Stream.fresh_pkt for every first byte) *)\n" +
+		"Lemma sync_dispatch : g_dispatch_mask = dispatch_mask /\\ g_dispatch_table = dispatch_table /\\ g_dispatch_default = dispatch_default.\nProof. vm_compute. repeat split; reflexivity. Qed.\n"
 	os.WriteFile(filepath.Join(out, "SyncRead.v"), []byte(lems), 0o644)
 }
